@@ -12,8 +12,9 @@ from vf.denote import den_point, den_expr, dot, snapshot
 
 DIM = 2
 
-P_OPS = ['leaf', 'add', 'sub', 'neg', 'rmul', 'mul', 'div']
-E_OPS = ['leaf', 'add', 'sub', 'neg', 'rmul', 'mul', 'div', 'adds', 'radds', 'subs', 'rsubs', 'pp', 'sq']
+P_OPS = ['leaf', 'add', 'sub', 'neg', 'rmul', 'mul', 'div', 'iadd', 'isub', 'imul']
+E_OPS = ['leaf', 'add', 'sub', 'neg', 'rmul', 'mul', 'div', 'adds', 'radds', 'subs', 'rsubs', 'pp', 'sq', 'iadd', 'isub',
+         'imul', 'iadds']
 C_OPS = ['le', 'ge', 'eq', 'lt', 'gt', 'les', 'ges', 'eqs', 'rles', 'rges']
 
 
@@ -71,7 +72,7 @@ class Ctx:
             p = self.lp[i]
             return p, list(self.P[p])
         budget -= 1
-        if op in ('add', 'sub'):
+        if op in ('add', 'sub', 'iadd', 'isub'):
             bl = self.ch(budget + 1, 'split')
             a, va = self.gen_point(bl)
             b, vb = self.gen_point(budget - bl)
@@ -79,12 +80,24 @@ class Ctx:
             self.track(b)
             if op == 'add':
                 return a + b, [x + y for x, y in zip(va, vb)]
-            return a - b, [x - y for x, y in zip(va, vb)]
+            if op == 'sub':
+                return a - b, [x - y for x, y in zip(va, vb)]
+            # augmented assignment: `c = a; c += b` must rebind c and leave the object a (held elsewhere) unchanged
+            c = a
+            if op == 'iadd':
+                c += b
+                return c, [x + y for x, y in zip(va, vb)]
+            c -= b
+            return c, [x - y for x, y in zip(va, vb)]
         a, va = self.gen_point(budget)
         self.track(a)
         if op == 'neg':
             return -a, [-x for x in va]
         s, vs = self.scalar()
+        if op == 'imul':
+            c = a
+            c *= s
+            return c, [x * vs for x in va]
         if op == 'rmul':
             return s * a, [vs * x for x in va]
         if op == 'mul':
@@ -120,13 +133,20 @@ class Ctx:
             e = self.le[i]
             return e, self.F[e]
         budget -= 1
-        if op in ('add', 'sub'):
+        if op in ('add', 'sub', 'iadd', 'isub'):
             bl = self.ch(budget + 1, 'split')
             a, va = self.gen_expr(bl)
             b, vb = self.gen_expr(budget - bl)
             self.track(a)
             self.track(b)
-            return (a + b, va + vb) if op == 'add' else (a - b, va - vb)
+            if op in ('add', 'sub'):
+                return (a + b, va + vb) if op == 'add' else (a - b, va - vb)
+            c = a
+            if op == 'iadd':
+                c += b
+                return c, va + vb
+            c -= b
+            return c, va - vb
         if op in ('pp',):
             bl = self.ch(budget + 1, 'split')
             a, va = self.gen_point(bl)
@@ -143,6 +163,14 @@ class Ctx:
         if op == 'neg':
             return -a, -va
         s, vs = self.scalar()
+        if op == 'imul':
+            c = a
+            c *= s
+            return c, va * vs
+        if op == 'iadds':
+            c = a
+            c += s
+            return c, va + vs
         if op == 'rmul':
             return s * a, vs * va
         if op == 'mul':
